@@ -117,3 +117,24 @@ Theorem C01_wire_to_delivery :
         r_inc (fst r) = None /\ r_credit (fst r) = r_credit s - 1 /\ r_dc (fst r) = wadd (r_dc s) 1.
 Proof. exact wire_to_delivery. Qed.
 Print Assumptions C01_wire_to_delivery.
+
+(** ... and for a delivery that fits one frame: the one frame is read back and handed over at once *)
+Theorem C01_wire_to_delivery_single_frame :
+  forall m ch h d tb f st rs b payload p chunks fuel s,
+    let vs := [h; VUint d; VBinary tb; VUint f; VNull; VBool false; VNull; st; rs; VBool false; b] in
+    ch < 65536 -> fields_ok (s_fields transfer_schema) vs = true ->
+    Forall (fun v => (depth v <= fuel)%nat) vs -> (1 <= fuel)%nat ->
+    transfer_perfs vs = Some p ->
+    transfer_layout m ch p payload chunks ->
+    lenN (p_single p) + lenN payload <= m - 4 ->
+    r_waiting s = true -> r_queue s = [] -> r_inc s = None -> 1 <= r_credit s ->
+    exists fr x,
+      map (dec_frame fuel) chunks = [Ok fr] /\ xfer_of_frame fr = Some x /\
+      exists info res,
+        snd (rstep s (EXfer x)) = [res] /\
+        (res = ORecv info (Some f) payload \/ res = ORecvErr EIllegalRsm) /\
+        d_id info = d /\ d_tag info = from_be tb /\
+        r_inc (fst (rstep s (EXfer x))) = None /\
+        r_credit (fst (rstep s (EXfer x))) = r_credit s - 1 /\ r_dc (fst (rstep s (EXfer x))) = wadd (r_dc s) 1.
+Proof. exact wire_to_delivery_single. Qed.
+Print Assumptions C01_wire_to_delivery_single_frame.
